@@ -60,6 +60,17 @@ pub fn exec(input: &[u64]) -> Vec<u64> {
         8 => match ObserveOption::try_from(x as usize) { Ok(o) => vec![0, usize::from(o) as u64], Err(_) => vec![1] },
         9 => { let mut h = header_from(x as u8, MessageClass::Empty, 0); h.set_version(input[2] as u8); vec![raw_vtt(&h) as u64] }
         10 => vec![u8::from(MessageClass::Request(ALL_REQ[x as usize])) as u64],
+        11 => {
+            let c = class_dec(x);
+            let mut rq: coap_lite::CoapRequest<u8> = coap_lite::CoapRequest::new();
+            rq.message.header.code = c;
+            let method = *rq.get_method();
+            let resp_index = |m: coap_lite::ResponseType| ALL_RESP.iter().position(|x| *x == m).unwrap() as u64;
+            let mut rs = coap_lite::CoapResponse::new(&Packet::new()).unwrap();
+            rs.message.header.code = c;
+            let status = *rs.get_status();
+            vec![resp_index(status), u8::from(MessageClass::Request(method)) as u64]
+        }
         _ => vec![998],
     }
 }
@@ -74,5 +85,7 @@ pub fn gen(_tier: &str, _r: &mut Rng, emit: &mut dyn FnMut(Vec<u64>)) {
     for v in 0..256u64 { for t in 0..4u64 { emit(vec![6, v, t]); } for x in 0..256u64 { emit(vec![9, v, x]); } }
     for i in 0..28u64 { emit(vec![7, i]); }
     for i in 0..8u64 { emit(vec![10, i]); }
+    for x in 0..258u64 { emit(vec![11, x]); }
+    for b in 0..256u64 { emit(vec![11, 512 + b]); }
     for x in 0..300u64 { emit(vec![8, x]); }
 }
